@@ -11,8 +11,17 @@ namespace etl {
 /// subtracting two exact rational fractions represented by the ratio
 /// specializations R1 and R2.
 /// \ingroup ratio
+namespace detail {
+// use the least common denominator instead of the product of the denominators
 template <typename R1, typename R2>
-using ratio_subtract = ratio<R1::num * R2::den - R2::num * R1::den, R1::den * R2::den>;
+struct ratio_subtract_impl {
+    static constexpr intmax_t g = gcd(R1::den, R2::den);
+    using type = typename ratio<R1::num * (R2::den / g) - R2::num * (R1::den / g), R1::den * (R2::den / g)>::type;
+};
+} // namespace detail
+
+template <typename R1, typename R2>
+using ratio_subtract = typename detail::ratio_subtract_impl<R1, R2>::type;
 
 } // namespace etl
 
